@@ -346,6 +346,45 @@ fn closure(types: &[Ty], rules: &[BRule], start: &Snapshot) -> BTreeMap<u8, Vec<
     d
 }
 
+/// EXACT forward closure: every fact state (the five fields) some sequence of rule firings reaches from
+/// `start` — a rule fires in a state in which its condition holds and applies its assignments in order.
+/// Rules whose action list errors midway are treated as firing completely (a superset: their writes are
+/// rolled back in reality). At most 3^5 states. None if a field is missing.
+fn reachable(types: &[Ty], rules: &[BRule], start: &Snapshot) -> Option<BTreeSet<Vec<String>>> {
+    let mut init: Vec<Value> = Vec::new();
+    for f in 0..NF as u8 {
+        init.push(start.get(&fkey(f))?.clone());
+    }
+    fn holds(types: &[Ty], c: &BCond, st: &[Value]) -> bool {
+        match c {
+            BCond::Atom(a) => atom_on(types[a.field as usize % NF], a, &st[a.field as usize % NF]),
+            BCond::And(a, b) => holds(types, a, st) && holds(types, b, st),
+            BCond::Or(a, b) => holds(types, a, st) || holds(types, b, st),
+        }
+    }
+    let key = |st: &[Value]| -> Vec<String> { st.iter().map(|v| format!("{v:?}")).collect() };
+    let mut seen: BTreeSet<Vec<String>> = BTreeSet::new();
+    let mut work = vec![init.clone()];
+    seen.insert(key(&init));
+    while let Some(st) = work.pop() {
+        for r in rules {
+            if holds(types, &r.cond, &st) {
+                let mut nx = st.clone();
+                for (f, l) in &r.sets {
+                    nx[*f as usize % NF] = lit_value(types[*f as usize % NF], *l);
+                }
+                if seen.insert(key(&nx)) {
+                    work.push(nx);
+                }
+            }
+        }
+        if seen.len() > 2000 {
+            return None; // cannot happen with 3^5 states; a guard against a harness slip
+        }
+    }
+    Some(seen)
+}
+
 /// Horn-monotone programs: every field is assigned at most one value by the rules and every atom
 /// on an assigned field is `field == that value`; there derivations never undo each other and the
 /// minimal derivation height of a goal is well defined. None = the program is not of that shape
@@ -585,6 +624,21 @@ fn judge(
                 let v = Violation::new("C09", "sound.closure", site, "provable-but-not-in-forward-closure", format!("{whose}: `{gt}` reported provable, but no sequence of rule firings from the initial facts can make it true (values {} can take: {vals:?})", fkey(goal.field)), step);
                 if !obs.is_known(&v) {
                     return Err(v);
+                }
+            }
+            // sound.reachable: every execution in backward chaining is a forward firing from the facts as they
+            // stand, and roll-backs return to earlier states — so the facts handed back are a state the rule set
+            // can reach from the initial facts (an exact closure; the clause above over-approximates per field)
+            if let Some(reach) = reachable(types, rules, before) {
+                let st: Option<Vec<String>> = (0..NF as u8).map(|f| out.after.get(&fkey(f)).map(|v| format!("{v:?}"))).collect();
+                if let Some(st) = st {
+                    obs.count("probe.reachable_states_enumerated");
+                    if !reach.contains(&st) {
+                        let v = Violation::new("C09", "sound.closure", site, "facts-handed-back-are-not-a-reachable-state", format!("{whose}: `{gt}` reported provable; the facts handed back {st:?} are not among the {} fact states any sequence of rule firings reaches from the initial facts", reach.len()), step);
+                        if !obs.is_known(&v) {
+                            return Err(v);
+                        }
+                    }
                 }
             }
             obs.count("probe.provable_query");
